@@ -320,16 +320,228 @@ theorem enum_type_roundtrip (hI : IntRoundTrip) (hV : FValRoundTrip) (u : Option
         simp only [hut, if_true]
         simp only [loadParameterType, loadEnumeration, hel, helems, hfold, hde, hun, bind, Except.bind, pure, Except.pure]
         simp [mkEl, XmlNode.tag, XmlNode.attr!, XmlNode.attr?, XmlNode.attrs, PARAMETER_TYPE_TAGS]
-/-- Parameter types of the two families above. -/
-def PTypeWF (t : LPType) : Prop := PlainWF t ∨ EnumWF t
+/-- What the time type's `scale` / `offset` attributes say about the default calibrator of its encoding. -/
+inductive TimeCal : Option Calibrator → Prop
+  | none : TimeCal none
+  | scale (c1 : Rat) : TimeCal (some (.poly [{ coef := c1, exp := 1 }]))
+  | both (c0 c1 : Rat) : TimeCal (some (.poly [{ coef := c0, exp := 0 }, { coef := c1, exp := 1 }]))
+  | other (c : Calibrator) (h : match c with | .poly cs => linearShape cs = false | .spline _ => True) : TimeCal (some c)
+
+/-- Time parameter types as the loader produces them. -/
+structure TimeWF (t : LPType) : Prop where
+  tag : t.tag = "AbsoluteTimeParameterType" ∨ t.tag = "RelativeTimeParameterType"
+  enc : ∃ ne, t.enc = .num ne ∧ EncWF (.num ne) ∧ TimeCal ne.cals.default
+  noEnum : t.enumeration = []
+  epoch : t.epoch ≠ some ""
+  offsetFrom : t.offsetFrom ≠ some ""
+
+theorem timeReference_noEnc (u : Option String) (t : LPType) : NoEncList (timeReference u t) := by
+  unfold timeReference
+  split
+  · refine ⟨node_noEnc u _ _ _ _ (by decide) ((noEncList_append _ _).mpr ⟨?_, ?_⟩), trivial⟩
+    · split
+      · exact ⟨leaf_noEnc u _ _ _ (by decide), trivial⟩
+      · trivial
+    · split
+      · exact ⟨leaf_noEnc u _ _ _ (by decide), trivial⟩
+      · trivial
+  · trivial
+
+/-- Reading back the reference-time part: epoch and offset-from. -/
+theorem timeReference_read (u : Option String) (t : LPType) (he : t.epoch ≠ some "") (ho : t.offsetFrom ≠ some "")
+    (tag : String) (attrs : List (String × String)) (E : XmlNode) (hE : E.tag = "Encoding") :
+    (findFirst u [step "ReferenceTime", step "Epoch"] (mkEl u tag attrs ([E] ++ timeReference u t))).bind (·.text) = t.epoch ∧
+    findFirst u [step "ReferenceTime", step "OffsetFrom"] (mkEl u tag attrs ([E] ++ timeReference u t)) =
+      (match t.offsetFrom with | some s => some (mkEl u "OffsetFrom" [("parameterRef", s)] []) | none => none) := by
+  have hEm : Step.matches u { tag := "ReferenceTime" } E = false := by simp [Step.matches, hE]
+  rcases unit_cases t.epoch he with ⟨h1, h1t⟩ | ⟨se, h1, h1t⟩ <;>
+  rcases unit_cases t.offsetFrom ho with ⟨h2, h2t⟩ | ⟨so, h2, h2t⟩ <;>
+  · rw [h1] at h1t; rw [h2] at h2t
+    simp [timeReference, h1, h2, h1t, h2t, findFirst, findAll, mkEl, XmlNode.kids, step, List.filter_cons, hEm]
+    try simp [Step.matches, XmlNode.isElem, XmlNode.tag, XmlNode.ns, XmlNode.text]
+
+/-- The `scale` / `offset` attributes the writer derives, and what the loader makes of them. -/
+theorem timeScaleOffset_spec (hF : FloatRoundTrip) (ne : NumEnc) (h : TimeCal ne.cals.default) (so : List (String × String))
+    (hso : timeScaleOffset ne = .ok so) :
+    (∀ k, k ≠ "scale" → k ≠ "offset" → so.find? (·.1 == k) = none) ∧
+    (match ne.cals.default with
+     | none => so = []
+     | some (.poly cs) => if linearShape cs then
+         (match (so.find? (·.1 == "offset")).map (·.2), (so.find? (·.1 == "scale")).map (·.2) with
+          | some o, some sc => ∃ c0 c1, cs = [{ coef := c0, exp := 0 }, { coef := c1, exp := 1 }] ∧ readRat o = .ok c0 ∧ readRat sc = .ok c1
+          | none, some sc => ∃ c1, cs = [{ coef := c1, exp := 1 }] ∧ readRat sc = .ok c1
+          | _, none => False)
+         else so = []
+     | some (.spline _) => so = []) := by
+  generalize hd : ne.cals.default = dflt at h ⊢
+  cases h with
+  | none => simp only [timeScaleOffset, hd] at hso; injection hso with hso; subst hso; simp
+  | scale c1 =>
+    simp only [timeScaleOffset, hd] at hso ⊢
+    have hl : linearShape [({ coef := c1, exp := 1 } : PolyTerm)] = true := by simp [linearShape]
+    simp only [hl, Bool.not_true, Bool.false_eq_true, if_false, List.filter_cons, List.filter_nil] at hso
+    simp only [show ((1 : Int) == 1) = true by decide, show ((1 : Int) == 0) = false by decide, if_true,
+      Bool.false_eq_true, if_false, List.head?_cons, List.head?_nil, showCoef, Bool.false_and] at hso
+    cases hs : showFloat (.fin c1) with
+    | error e => simp [hs] at hso
+    | ok s1 =>
+      simp only [hs, List.append_nil] at hso
+      injection hso with hso; subst hso
+      refine ⟨fun k h1 h2 => by simp [Ne.symm h1], ?_⟩
+      simp only [hl, if_true]
+      simp [hF c1 s1 hs]
+  | both c0 c1 =>
+    simp only [timeScaleOffset, hd] at hso ⊢
+    have hl : linearShape [({ coef := c0, exp := 0 } : PolyTerm), { coef := c1, exp := 1 }] = true := by simp [linearShape]
+    simp only [hl, Bool.not_true, Bool.false_eq_true, if_false, List.filter_cons, List.filter_nil] at hso
+    simp only [show ((1 : Int) == 1) = true by decide, show ((1 : Int) == 0) = false by decide,
+      show ((0 : Int) == 1) = false by decide, show ((0 : Int) == 0) = true by decide, if_true,
+      Bool.false_eq_true, if_false, List.head?_cons, List.head?_nil, showCoef, Bool.false_and] at hso
+    cases hs1 : showFloat (.fin c1) with
+    | error e => simp [hs1] at hso
+    | ok s1 =>
+      cases hs0 : showFloat (.fin c0) with
+      | error e => simp [hs1, hs0] at hso
+      | ok s0 =>
+        simp only [hs1, hs0] at hso
+        injection hso with hso; subst hso
+        refine ⟨fun k h1 h2 => by simp [Ne.symm h1, Ne.symm h2], ?_⟩
+        simp only [hl, if_true]
+        simp [hF c1 s1 hs1, hF c0 s0 hs0]
+  | other c hc =>
+    cases c with
+    | spline sp => simp only [timeScaleOffset, hd] at hso ⊢; injection hso with hso; subst hso; simp
+    | poly cs =>
+      simp only at hc
+      simp only [timeScaleOffset, hd, hc, Bool.not_false, if_true] at hso ⊢
+      injection hso with hso; subst hso; simp
+
+
+theorem time_type_roundtrip (hI : IntRoundTrip) (hV : FValRoundTrip) (u : Option String) (t : LPType)
+    (hwf : TimeWF t) (x : XmlNode) (hw : writeParameterType u t = .ok x) : loadParameterType u x = .ok t := by
+  obtain ⟨tag, name, unit, enc, enumeration, epoch, offsetFrom⟩ := t
+  obtain ⟨htag, ⟨ne, henc, hencwf, htc⟩, hnoenum, hep, hof⟩ := hwf
+  simp only at htag henc hnoenum hep hof
+  subst henc hnoenum
+  have htime : (tag == "AbsoluteTimeParameterType" || tag == "RelativeTimeParameterType") = true := by
+    rcases htag with rfl | rfl <;> decide
+  have hknown : tag ∈ PARAMETER_TYPE_TAGS := by
+    rcases htag with rfl | rfl <;> decide
+  simp only [writeParameterType, htime, if_true] at hw
+  cases hso : timeScaleOffset ne with
+  | error e => simp [hso] at hw
+  | ok so =>
+    simp only [hso] at hw
+    cases he : writeEncoding u (.num ne) with
+    | error e => simp [he] at hw
+    | ok encEl =>
+      simp only [he] at hw
+      injection hw with hw; subst hw
+      obtain ⟨ea, ek, hex, hek⟩ := writeEncoding_shape u (.num ne) encEl he
+      have hekp := descendantsList_plain ek hek
+      obtain ⟨hsoKeys, hsoSpec⟩ := timeScaleOffset_spec hV.toFloat ne htc so hso
+      generalize hUA : unitAttr unit = ua at *
+      generalize hE : mkEl u "Encoding" (ua ++ so) [encEl] = E
+      have hEt : E.tag = "Encoding" := by rw [← hE]; rfl
+      have hEk : E.kids = [encEl] := by rw [← hE]; rfl
+      have hEelem : E = .elem u "Encoding" (ua ++ so) none [encEl] := hE.symm
+      -- the reference-time part
+      obtain ⟨hepoch, hofrom⟩ := timeReference_read u
+        { tag := tag, name := name, unit := unit, enc := .num ne, epoch := epoch, offsetFrom := offsetFrom } hep hof
+        tag [("name", name)] E hEt
+      -- the Encoding element is found
+      have hfindE : findFirst u [step "Encoding"] (mkEl u tag [("name", name)] ([E] ++ timeReference u
+          { tag := tag, name := name, unit := unit, enc := .num ne, epoch := epoch, offsetFrom := offsetFrom })) = some E := by
+        subst hEelem
+        simp [findFirst, findAll, mkEl, XmlNode.kids, List.filter_cons, Step.matches, step, XmlNode.isElem, XmlNode.tag,
+          XmlNode.ns]
+      -- the data encoding is found below it
+      have hdesc : descendants (mkEl u tag [("name", name)] ([E] ++ timeReference u
+          { tag := tag, name := name, unit := unit, enc := .num ne, epoch := epoch, offsetFrom := offsetFrom })) =
+          [E] ++ encEl :: (descendantsList ek ++ [] ++ descendantsList (timeReference u
+            { tag := tag, name := name, unit := unit, enc := .num ne, epoch := epoch, offsetFrom := offsetFrom })) := by
+        subst hEelem; subst hex
+        simp [mkEl, descendants, descendantsList, descendantsList_append, XmlNode.isElem]
+      have hde := data_encoding_roundtrip hI hV u _ [E] _ (.num ne) hencwf encEl he hdesc
+        (by intro y hy; simp at hy; subst hy; rw [hEt]; rfl)
+        (by
+          intro y hy
+          simp only [List.append_nil, List.mem_append] at hy
+          rcases hy with hy | hy
+          · exact hekp y hy
+          · exact descendantsList_plain _ (timeReference_noEnc u _) y hy)
+      have hunits : E.attr? "units" = unit := by
+        subst hEelem; subst hUA
+        cases unit with
+        | none => simp [unitAttr, XmlNode.attr?, XmlNode.attrs, hsoKeys "units" (by decide) (by decide)]
+        | some v => simp [unitAttr, XmlNode.attr?, XmlNode.attrs]
+      have hattr : ∀ k, k ≠ "units" → E.attr? k = (so.find? (·.1 == k)).map (·.2) := by
+        intro k hk
+        subst hEelem; subst hUA
+        cases unit with
+        | none => simp [unitAttr, XmlNode.attr?, XmlNode.attrs]
+        | some v =>
+          have : ("units" == k) = false := by simpa using fun e => hk e.symm
+          simp [unitAttr, XmlNode.attr?, XmlNode.attrs, List.find?_cons, this]
+      have hoff := hattr "offset" (by decide)
+      have hsc := hattr "scale" (by decide)
+      have hnm : (mkEl u tag [("name", name)] ([E] ++ timeReference u
+          { tag := tag, name := name, unit := unit, enc := .num ne, epoch := epoch, offsetFrom := offsetFrom })).attr! "name"
+          = .ok name := by simp [mkEl, XmlNode.attr!, XmlNode.attr?, XmlNode.attrs]
+      clear hEelem
+      subst hE
+      subst hUA
+      simp only [loadParameterType, bind, Except.bind, pure, Except.pure]
+      simp only [show (mkEl u tag [("name", name)] ([mkEl u "Encoding" (unitAttr unit ++ so) [encEl]] ++ timeReference u
+          { tag := tag, name := name, unit := unit, enc := .num ne, epoch := epoch, offsetFrom := offsetFrom })).tag = tag from rfl,
+        List.contains_iff_mem.mpr hknown, htime, Bool.not_true, Bool.false_eq_true, if_false, if_true, hnm, hfindE, hde,
+        hunits, hoff, hsc, hepoch, hofrom]
+      obtain ⟨isFloat, size, encoding, byteOrder, ⟨dflt, contexts⟩⟩ := ne
+      simp only at hsoSpec
+      cases dflt with
+      | none =>
+        subst hsoSpec
+        cases offsetFrom <;> simp [mkEl, XmlNode.attr!, XmlNode.attr?, XmlNode.attrs]
+      | some c =>
+        cases c with
+        | spline sp =>
+          simp only at hsoSpec
+          subst hsoSpec
+          cases offsetFrom <;> simp [mkEl, XmlNode.attr!, XmlNode.attr?, XmlNode.attrs]
+        | poly cs =>
+          simp only at hsoSpec
+          by_cases hl : linearShape cs = true
+          · simp only [hl, if_true] at hsoSpec
+            cases ho : (so.find? (·.1 == "offset")).map (·.2) with
+            | none =>
+              cases hs : (so.find? (·.1 == "scale")).map (·.2) with
+              | none => simp only [ho, hs] at hsoSpec
+              | some sc =>
+                simp only [ho, hs] at hsoSpec
+                obtain ⟨c1, rfl, hr⟩ := hsoSpec
+                cases offsetFrom <;> simp [hr, mkEl, XmlNode.attr!, XmlNode.attr?, XmlNode.attrs]
+            | some o =>
+              cases hs : (so.find? (·.1 == "scale")).map (·.2) with
+              | none => simp only [ho, hs] at hsoSpec
+              | some sc =>
+                simp only [ho, hs] at hsoSpec
+                obtain ⟨c0, c1, rfl, hr0, hr1⟩ := hsoSpec
+                cases offsetFrom <;> simp [hr0, hr1, mkEl, XmlNode.attr!, XmlNode.attr?, XmlNode.attrs]
+          · simp only [hl, Bool.false_eq_true, if_false] at hsoSpec
+            subst hsoSpec
+            cases offsetFrom <;> simp [mkEl, XmlNode.attr!, XmlNode.attr?, XmlNode.attrs]
+
+/-- Parameter types of the three families above. -/
+def PTypeWF (t : LPType) : Prop := PlainWF t ∨ EnumWF t ∨ TimeWF t
 
 /-- **A parameter type written to XML and loaded back is the same parameter type**: class, name, unit, encoding
     (with calibrators and length specification) and enumeration. -/
 theorem ptype_roundtrip (hI : IntRoundTrip) (hV : FValRoundTrip) (u : Option String) (t : LPType)
     (hwf : PTypeWF t) (x : XmlNode) (hw : writeParameterType u t = .ok x) : loadParameterType u x = .ok t := by
-  rcases hwf with h | h
+  rcases hwf with h | h | h
   · exact plain_type_roundtrip hI hV u t h x hw
   · exact enum_type_roundtrip hI hV u t h x hw
+  · exact time_type_roundtrip hI hV u t h x hw
 
 /-- Parameters as the loader produces them: an absent long description is `none`, never the empty string. -/
 def ParamWF (p : LParam) : Prop := p.longDesc ≠ some ""
